@@ -60,7 +60,7 @@ CHECKS = {
    note="Trusted: the in-memory pipe model (mc/envmodels.py MemPipe); OpenSSL is real. Quick tier caps each scenario at 250 executions in order of increasing deviation count (cap and completed deviation level are in the evidence)."),
  "C18": dict(cat="fault_enumeration", engine="E", technique="exhaustive enumeration (deviation-bounded, capped per scenario) of environment events and answers of modelled endpoints - asyncio transport pair with kernel buffer / pause-resume, non-blocking socket pair with partial send/recv and readiness callbacks - around the real SocketStream / UNIXSocketStream code",
    text="anyio's SocketStream(StreamProtocol) over a modelled asyncio transport pair (4-byte kernel buffer, write-buffer limit 0 => pause/resume_writing, data_received chunking, eof_received, connection_lost) and UNIXSocketStream over modelled non-blocking sockets (3-byte pipe, partial send, short recv, BlockingIOError, add_reader/add_writer readiness): message sizes 1..9 (> buffers), max_bytes 1/2/65536, slow reader, full duplex, send_eof/close, a second task entering the same direction at any explorer-chosen moment, use after local close also with received data left over; every order of enabled environment events at idle plus up to 2 (thorough 3) non-default answers per execution; oracle: received == sent, chunk size, EndOfStream / ClosedResourceError / BusyResourceError, no deadlock.",
-   note="Trusted: the endpoint models in mc/envmodels.py (the real kernel and uvloop are not explored; no real-socket conformance run is included)."),
+   note="Trusted: the endpoint models in mc/envmodels.py (the real kernel and uvloop are not explored exhaustively: each data scenario is additionally run over real UNIX socketpairs and TCP loopback on asyncio and uvloop with scaled message sizes and must satisfy the same end-to-end oracle - a sampled conformance run, labelled as such in the evidence)."),
  "C14": dict(cat="exploration", engine="B", technique="stateless preemption-bounded exploration of real OS threads under a baton scheduler (switch points at synchronisation operations) combined with the virtual loop's environment-action placement",
    text="1-2 (thorough 3) concurrent to_thread.run_sync calls x limiter total 1/2 (explicit and default limiter) x abandon_on_cancel x function behaviours (return, raise, wait on a gate, read a contextvar, poll from_thread.check_cancelled also behind a shielded-and-cancelled scope, call back via from_thread.run_sync / run) x gate releases and caller cancellation at every loop scheduling point x all thread schedules with <=1 (thorough 2) preemptions; oracle: result/exception identity, contextvar, running functions <= total and <= borrowed tokens, no token left, cancellation semantics per abandon_on_cancel, check_cancelled raises, no deadlock.",
    note="Trusted: threads are switched only at synchronisation operations (queue get/put, call_soon_threadsafe, Future.result, thread start/join/exit, harness gates, before each loop handle); the code between two such points and each loop callback are treated as atomic; virtual loop instead of selector loop/uvloop; quick tier caps each scenario at 500 executions in order of increasing deviations."),
